@@ -313,6 +313,28 @@ func propC17(c *Ctx) {
 		i++
 	}
 	c.toolScenario(t, "supplementary-plane", astral, false)
+	// the LAST word of the file ending in a character whose UTF-8 encoding ends in each possible continuation
+	// byte 0x80..0xBF (0x85 and 0xA0 are white space when a byte is mistaken for a rune), with and without a
+	// final line feed, with trailing blank lines: byte-wise trimming of the end of the file eats into the word
+	for _, fb := range []int{0x05, 0x20} { // final bytes 0x85 and 0xA0, on every target
+		in := map[string]string{}
+		j := 0
+		for p := range toolTargets {
+			in[p] = "alpha\nbeta\ngamm" + string(rune(0x4E00+fb)) + []string{"", "\n", "\n\n\n"}[j%3]
+			j++
+		}
+		c.toolScenario(t, "last-word-final-byte", in, false)
+	}
+	for k := 0; k < 64; k += 9 {
+		in := map[string]string{}
+		j := 0
+		for p := range toolTargets {
+			b := (k + j*5) % 64
+			in[p] = "one\ntwo\nwo" + string(rune(0x4E00+b)) + []string{"", "\n", "\n\n"}[(j+k)%3]
+			j++
+		}
+		c.toolScenario(t, "last-word-final-byte", in, false)
+	}
 	c.toolScenario(t, "very-long-word", longs, false)
 	c.toolScenario(t, "magic-number-prefix", magic, false)
 	reps := 3 * c.scale
